@@ -353,7 +353,31 @@ public:
   }
 
 protected:
+  // the core must never ask for an instance to be created while that instance is being created or exists, nor for one
+  // to be destroyed that does not exist: the plug-in notes it (worlds report it)
+  bool lc_creating = false, lc_live = false;
+  static inline std::atomic<int> lifecycle_misuse{ 0 };
   inline bool impl_create_sandbox(int lib_id = 0)
+  {
+    if (lc_creating || lc_live)
+      lifecycle_misuse.fetch_add(1);
+    lc_creating = true;
+    struct Done
+    {
+      rlbox_sim_sandbox* s;
+      bool ok = false;
+      ~Done()
+      {
+        s->lc_creating = false;
+        if (ok)
+          s->lc_live = true;
+      }
+    } done{ this };
+    bool r = impl_create_sandbox_inner(lib_id);
+    done.ok = r;
+    return r;
+  }
+  inline bool impl_create_sandbox_inner(int lib_id)
   {
     SIM_YIELD("impl_create");
     if (sim::g_fault.create_fail == 1) {
@@ -398,6 +422,9 @@ protected:
 
   inline void impl_destroy_sandbox()
   {
+    if (!lc_live || lc_creating)
+      lifecycle_misuse.fetch_add(1);
+    lc_live = false;
     SIM_YIELD("impl_destroy");
     sim::bev("backend destroy inst=%d", inst_id);
     for (size_t i = 0; i < sim::g_regions.size(); i++)
@@ -806,6 +833,7 @@ protected:
   }
 
 public:
+  static inline int lifecycle_misuse_count() { return lifecycle_misuse.load(); }
   // (a run must not inherit the finder that an earlier run of the same process captured)
   static inline void forget_finder() { captured_finder.store(nullptr, std::memory_order_relaxed); }
   static inline bool destroyed_object_still_listed(rlbox_sim_sandbox* obj)
